@@ -1,9 +1,106 @@
-/- line protocol stub for component `Thr` (filled in by the component's owner) -/
+import Tulz.Model.Thread
+import Tulz.Generated.ThreadCaptures
+import Tulz.Drv.Util
+/-
+  Lock-step replay of an observed execution of tulz::Thread on the model (C20).
+  The configuration is resolved from the GENERATED capture table, so the model that is replayed is the model of the source as
+  it is now: on a tree that captures the callable parameter by reference the model itself predicts the access to the dead
+  frame slot, at the same place where the real code traps.
+
+    thr init callable <nargs> | thr init runnable      -> ok callable=… args=… this=…
+    thr step <label>                                   -> ok <status>   |  MISMATCH <label> not enabled | <status>
+    thr crash                                          -> ok model-predicts-dead-access <labels> | MISMATCH crash …
+    thr end                                            -> ok <status>   |  MISMATCH end … (run complete, one invocation, nothing dead touched)
+    thr status
+-/
 namespace Tulz.Drv.Thr
+open _root_.Thread
 
-abbrev State := Unit
-def init : State := ()
+structure DState where
+  cfg : Cfg
+  st : _root_.Thread.State
 
-def step (s : State) (_args : List String) : State × String := (s, "bad-op")
+abbrev State := Option DState
+def init : State := none
+
+def parseLbl : String → Option Lbl
+  | "evalArgs" => some .evalArgs | "buildClosure" => some .buildClosure | "spawn" => some .spawn
+  | "returnFromStart" => some .returnFromStart | "clobberFrame" => some .clobberFrame | "poll" => some .poll
+  | "join" => some .join | "scopeExit" => some .scopeExit | "begin" => some .begin | "readCallable" => some .readCallable
+  | "invokeBegin" => some .invokeBegin | "useSelf" => some .useSelf | "useArgs" => some .useArgs
+  | "invokeEnd" => some .invokeEnd | "delete" => some .delete | "setFinished" => some .setFinished | "exit" => some .exit
+  | _ => none
+
+def spcStr : SPc → String
+  | .evalArgs => "evalArgs" | .buildClosure => "buildClosure" | .spawn => "spawn" | .returnFromStart => "returnFromStart"
+  | .clobberFrame => "clobberFrame" | .working => "working" | .joined => "joined" | .done => "done"
+
+def wpcStr : WPc → String
+  | .unborn => "unborn" | .begin => "begin" | .readCallable => "readCallable" | .invokeBegin => "invokeBegin" | .inside => "inside"
+  | .delete => "delete" | .setFinished => "setFinished" | .exit => "exit" | .ended => "ended"
+
+def b (x : Bool) : String := if x then "1" else "0"
+
+def status (s : _root_.Thread.State) : String :=
+  s!"spc={spcStr s.spc} wpc={wpcStr s.wpc} fin={b s.finished} inv={s.invokes} ret={b s.returned} des={s.destroys} saw={b s.sawFinished} bad={b s.badTouch}"
+
+def capStr : Cap → String
+  | .byCopy => "copy"
+  | .byRef .frameSlot => "ref:frameSlot"
+  | .byRef .callerLvalue => "ref:callerLvalue"
+  | .byRef .thisObj => "ref:thisObj"
+
+def argsStr (cfg : Cfg) : String :=
+  match cfg.args with
+  | [] => "none"
+  | a :: _ => capStr a
+
+/-- candidate continuations of the new thread whose last step performs an access -/
+def crashCandidates : List (List Lbl) :=
+  [[.begin, .readCallable], [.readCallable], [.useSelf], [.useArgs], [.invokeBegin], [.delete], [.setFinished],
+   [.begin, .readCallable, .invokeBegin], [.invokeEnd, .delete], [.invokeEnd, .setFinished]]
+
+def lblStr (l : Lbl) : String := (reprStr l).replace "Thread.Lbl." ""
+
+def step (st : State) (args : List String) : State × String :=
+  match args with
+  | ["init", "callable", n] =>
+    match n.toNat? with
+    | none => (st, "bad-op")
+    | some k =>
+      match Cfg.ofCaps .callable Tulz.Generated.ThreadCaptures.startTemplate k with
+      | some cfg => (some ⟨cfg, _root_.Thread.init cfg⟩, s!"ok callable={capStr cfg.callable} args={argsStr cfg} this={capStr cfg.this}")
+      | none => (none, "MISMATCH init: the generated table of the template start() does not resolve to closure fields")
+  | ["init", "runnable"] =>
+    match Cfg.ofCaps .runnable Tulz.Generated.ThreadCaptures.startRunnable 0 with
+    | some cfg => (some ⟨cfg, _root_.Thread.init cfg⟩, s!"ok callable={capStr cfg.callable} args={argsStr cfg} this={capStr cfg.this}")
+    | none => (none, "MISMATCH init: the generated table of start(Runnable*) does not resolve to closure fields")
+  | _ =>
+  match st with
+  | none => (none, "MISMATCH no-init")
+  | some d =>
+    match args with
+    | ["step", l] =>
+      match parseLbl l with
+      | none => (st, "bad-op")
+      | some lbl =>
+        match step? d.cfg d.st lbl with
+        | some t => (some { d with st := t }, "ok " ++ status t)
+        | none => (st, s!"MISMATCH {l} not enabled | {status d.st}")
+    | ["crash"] =>
+      let hits := crashCandidates.filter fun ls =>
+        match run? d.cfg d.st ls with
+        | some t => t.badTouch && !d.st.badTouch
+        | none => false
+      match hits with
+      | ls :: _ => (st, "ok model-predicts-dead-access " ++ ",".intercalate (ls.map lblStr))
+      | [] => (st, s!"MISMATCH crash: every object the new thread can access next is alive in the model | {status d.st}")
+    | ["end"] =>
+      let s := d.st
+      if s.spc == .done && s.wpc == .ended && s.invokes == 1 && s.finished && !s.badTouch
+          && (s.destroys == (if d.cfg.kind == .runnable then 1 else 0)) then (st, "ok " ++ status s)
+      else (st, "MISMATCH end: " ++ status s)
+    | ["status"] => (st, status d.st)
+    | _ => (st, "bad-op")
 
 end Tulz.Drv.Thr
